@@ -458,6 +458,21 @@ Proof.
   rewrite <- execute_script_bot_OFuel. rewrite (S OFuel fuel' Hf), (S OFuel f0 (le_n _)). reflexivity.
 Qed.
 
+(* the relation to "some fuel gives an answer other than OFuel" (which is false in general, cyc_always_fuel below): either
+   it holds, or OFuel is the proper answer of the run - the answer of EVERY tower at enough fuel, so it was produced by a leaf
+   (the deep comparison's own fuel in relop, an LFuel of a library function, the fuel of parse_script in an include), not by
+   the interpreter's recursion running out *)
+Corollary answers_or_declines : forall sc w,
+  (exists fuel, fst (execute_script cfg lib url_rel lint_lines fuel sc w) <> OFuel) \/
+  (exists fuel, forall bot fuel', (fuel <= fuel')%nat -> fst (execute_script_bot cfg lib url_rel lint_lines bot fuel' sc w) = OFuel).
+Proof.
+  intros sc w. destruct (terminates sc w) as (f0 & r & S).
+  assert (D : fst r = OFuel \/ fst r <> OFuel) by (destruct (fst r); (left; reflexivity) || (right; discriminate)).
+  destruct D as [D|D].
+  - right. exists f0. intros bot fuel' Hf. rewrite (S bot fuel' Hf). exact D.
+  - left. exists f0. rewrite <- execute_script_bot_OFuel. rewrite (S OFuel f0 (le_n _)). exact D.
+Qed.
+
 End Main.
 
 (* ---- non-vacuity: the library functions of Model/LibCore.v meet both premises (they never call back) ---- *)
@@ -490,3 +505,21 @@ Qed.
 Lemma cyc_not_from_tower : forall bot fuel,
   fst (execute_script_bot cyc_cfg (libcore cyc_cfg) no_url no_lint bot (6 + fuel) cyc_prog (world0 [])) = OFuel.
 Proof. intros bot fuel. vm_compute. reflexivity. Qed.
+
+(* ---- the budget at work: `L: jump L` (while true) and unbounded recursion stop with the budget error, whatever the fuel
+   beyond a bound and whatever the depth-0 answer ---- *)
+Definition loop_prog : script := [SLabel (U "L"); SJump (U "L") None].
+Definition rec_prog : script :=
+  [ SFunction (U "f") (Some []) false false [SReturn (Some (ECall (U "f") []))];
+    SReturn (Some (ECall (U "f") [])) ].
+Definition lim_cfg : config := mkcfg 10 false true.
+
+Lemma loop_stops : forall bot fuel,
+  let r := execute_script_bot lim_cfg (libcore lim_cfg) no_url no_lint bot (12 + fuel) loop_prog (world0 []) in
+  fst r = ORt (msg_exceeded 10) /\ w_count (snd r) = 11.
+Proof. intros bot fuel. vm_compute. split; reflexivity. Qed.
+
+Lemma rec_stops : forall bot fuel,
+  let r := execute_script_bot lim_cfg (libcore lim_cfg) no_url no_lint bot (40 + fuel) rec_prog (world0 []) in
+  fst r = ORt (msg_exceeded 10) /\ w_count (snd r) = 11.
+Proof. intros bot fuel. vm_compute. split; reflexivity. Qed.
